@@ -29,3 +29,11 @@ package workqueue
 //@   ensures   delay:    result <= max(r.wait, max(instant(old(r.last)) - clock(), instant(old(r.last)) + r.delta - clock()))
 //@   ensures   unlocked: !held(r.mu)
 //@ end
+
+// C13 — every item added to a work queue goes through its rate limiter
+//@ count QAddRL = (workqueue.TypedRateLimitingInterface).AddRateLimited
+//@ count QAddNow = (workqueue.TypedRateLimitingInterface).Add
+//@ func (*WorkQueue).Add
+//@   props C13
+//@   ensures limited: calls(QAddRL) == 1 && calls(QAddNow) == 0
+//@ end
